@@ -124,7 +124,29 @@ def topns():
     return d
 
 
-WORLDS = {'topns': topns, 'dotted': dotted, 'twonsdiff': twons_diff, 'empties': empties, 'resumable': resumable, 'chain3': chain3, 'diamond': diamond, 'types': types_world, 'samehash': two_parameterless, 'usesns': uses_ns, 'twofiles': twofiles, 'partsnonmain': parts_nonmain}
+def topname():
+    """the migrated Config carries an explicit name= different from its file name: name-mode results live under THAT name"""
+    d = chain3()
+    d['name'] = 'topname'
+    d['_top_name'] = 'experiment_7'
+    return d
+
+
+def parts_twice():
+    """the main part of a multi-config file uses two OTHER parts of the same file under different namespaces; both declare the same
+    task with different values"""
+    return {'name': 'partstwice', 'tasks': {
+        'A': {'params': [P('pa')], 'inputs': [], 'data': 'json'},
+        'Z': {'params': [], 'inputs': [families.by_name('s::a'), families.by_name('b::a')], 'data': 'json'}},
+        'configs': {
+            'top': {'medium': 'part', 'file': 'models.yaml', 'ext': 'yaml', 'part': 'top', 'main_part': True, 'tasks': ['Z'], 'values': {},
+                    'uses': [{'config': 'small', 'as': 's'}, {'config': 'big', 'as': 'b'}]},
+            'small': {'medium': 'part', 'file': 'models.yaml', 'ext': 'yaml', 'part': 'small', 'tasks': ['A'], 'values': {'pa': 2}},
+            'big': {'medium': 'part', 'file': 'models.yaml', 'ext': 'yaml', 'part': 'big', 'tasks': ['A'], 'values': {'pa': 5}}},
+        'root': 'top', 'variants': {'v0': []}}
+
+
+WORLDS = {'topname': topname, 'partstwice': parts_twice, 'topns': topns, 'dotted': dotted, 'twonsdiff': twons_diff, 'empties': empties, 'resumable': resumable, 'chain3': chain3, 'diamond': diamond, 'types': types_world, 'samehash': two_parameterless, 'usesns': uses_ns, 'twofiles': twofiles, 'partsnonmain': parts_nonmain}
 
 
 def listing(root):
@@ -293,6 +315,44 @@ def run_case(wname, present, seq):
         scratch.drop(root)
 
 
+def same_directory_scenarios():
+    """the target names the SOURCE directory itself under another spelling (trailing `x/..`, a str, a symlink, a relative path): the
+    migration must not write its copies into the source - it refuses (as it does for the identical path object)"""
+    from taskchain.utils.migration import migrate_to_parameter_mode
+
+    out = []
+    for spelling in ('dotdot', 'str', 'symlink', 'relative', 'identical'):
+        root = scratch.fresh('c20s')
+        w = worlds.World(chain3(), root)
+        cwd = os.getcwd()
+        try:
+            src = os.path.join(root, 'src')
+            ch = w.chain('v0', base_dir=src, parameter_mode=False)
+            for t in ch.tasks.values():
+                _ = t.value
+            os.makedirs(os.path.join(root, 'x'))
+            os.symlink(src, os.path.join(root, 'link'))
+            os.chdir(root)
+            target = {'dotdot': Path(root) / 'x' / '..' / 'src', 'str': src, 'symlink': Path(root) / 'link', 'relative': Path('src'), 'identical': Path(src)}[spelling]
+            snap = _results_only(listing(src))
+            try:
+                with redirect_stdout(io.StringIO()):
+                    migrate_to_parameter_mode(w.make_config('v0', base_dir=src), target, dry=False)
+                refused = False
+            except Exception:  # noqa
+                refused = True
+            now = _results_only(listing(src))
+            if now != snap:
+                new = sorted(set(map(str, now)) - set(map(str, snap)))
+                out.append(('source directory modified by migration (target is the source directory)', f'target given as {spelling} spelling of the source directory '
+                            f'({"refused" if refused else "accepted"}): new entries {new[:4]}'))
+        finally:
+            os.chdir(cwd)
+            w.dispose()
+            scratch.drop(root)
+    return out
+
+
 def _results_only(lst):
     return sorted((k, v) for k, v in lst if not k.rstrip('/').endswith('_tmp'))
 
@@ -316,7 +376,7 @@ def _job(items):
 def run(tier, seed):
     items = []
     seqs = [s for n in (1, 2, 3) for s in itertools.product((True, False), repeat=n)]
-    for wname in (['chain3', 'topns', 'dotted', 'samehash', 'usesns', 'types', 'twofiles', 'twonsdiff', 'partsnonmain', 'empties', 'resumable'] if tier == 'quick' else list(WORLDS)):
+    for wname in (['chain3', 'topns', 'topname', 'partstwice', 'dotted', 'samehash', 'usesns', 'types', 'twofiles', 'twonsdiff', 'partsnonmain', 'empties', 'resumable'] if tier == 'quick' else list(WORLDS)):
         desc = WORLDS[wname]()
         n = len(refmodel.Model(worlds.apply_variant(desc, 'v0'), 'x').tasks)
         subsets = list(itertools.product((True, False), repeat=n))
@@ -331,6 +391,8 @@ def run(tier, seed):
     res = Result()
     for r in pmap(_job, [items[i::n] for i in range(n)]):
         res.merge(r)
+    res.violations.extend(replay_same_dir())
+    res.add('evaluations', 5)
     res.coverage['cases'] = len(items)
     res.coverage['states'] = len(items)
     res.coverage['traces_validated_against_impl'] = res.coverage['evaluations']
@@ -343,9 +405,15 @@ def run(tier, seed):
     return res
 
 
+def replay_same_dir():
+    return [Violation(f'samedir: {k}', m, {'samedir': True}) for k, m in same_directory_scenarios()]
+
+
 def replay(case):
     import tcv
 
     tcv.quiet_library()
+    if case.get('samedir'):
+        return replay_same_dir()
     bad, c = run_case(case['world'], tuple(case['present']), tuple(case['seq']))
     return [Violation(f'{case["world"]}: {k}', m, case) for k, m in bad]
